@@ -21,7 +21,7 @@ for f in files:
         print('EXISTS, differs (manual):', f)
         continue
     os.makedirs(os.path.dirname('/verif/' + f) or '/verif', exist_ok=True)
-    shutil.copy2(W + '/' + f, '/verif/' + f)
+    shutil.copy(W + '/' + f, '/verif/' + f)
     print('copied', f)
 # registration
 m = open('/verif/harness/src/main.rs').read()
